@@ -16,7 +16,7 @@ from harness import common_render as CR
 ID = "C06"
 TECHNIQUE = "solver-enumerated block sequences X and wrappers W through the instrumented front end; the doctree of W(X) is compared node-for-node with the doctree of X rendered at top level"
 LEVEL_TEXT = ("For every block sequence X of the bounded grammar (paragraphs with inline markup, lists, quotes, code, link reference definitions and their uses, targets and '#'-links, footnotes, "
-              "a nested admonition) and every wrapper W (backtick or colon admonition directive, with ':class:' / '---' option block, nested 1-3 deep, include of a file containing X, block "
+              "a nested admonition, hard line breaks, tab characters, thematic breaks, an indented code block first) and every wrapper W (backtick or colon admonition directive, with ':class:' / '---' option block, nested 1-3 deep, include of a file containing X, block "
               "substitution whose value is X) the nodes produced inside W equal the nodes X produces at document top level (compared structurally, line numbers excepted), and a reference "
               "definition / target / footnote defined inside W is usable by a link placed after W.")
 LEVEL_NOTE = ("Degenerate (concrete documents after the solver's choices); the engine enumerates X x W exhaustively and executes the instrumented MyST layers. Headings inside X are excluded (C05).")
